@@ -199,21 +199,21 @@ def cases(rng, tier):
                           polys=[poly_gen(rng, nd, 2) for _ in range(nd)], density=1.0, unit=None)
                 yield dict(kind="ops", exact=True, mesh=ms, field=fs, sub=rng.getrandbits(32))
     # ---- random operator cases, exact regime
-    for _ in range(130 if quick else 1500):
+    for _ in range(420 if quick else 4000):
         big = rng.random() < 0.6
         ms = gen_mesh(rng, min_n=3 if big else 1, nmax=5 if quick else 7, max_cells=130 if quick else 300)
         yield dict(kind="ops", exact=True, mesh=ms, field=gen_field_spec(rng, ms), sub=rng.getrandbits(32),
-                   allrot=(not quick and rng.random() < 0.25))
+                   allrot=(rng.random() < (0.1 if quick else 0.3)))
     # ---- tolerance regime (cells 3,5,7 * 2^-k, float coefficients)
-    for _ in range(25 if quick else 300):
+    for _ in range(70 if quick else 700):
         ms = gen_mesh(rng, exact=False, min_n=rng.choice([1, 3]), nmax=5)
         yield dict(kind="ops", exact=False, mesh=ms, field=gen_field_spec(rng, ms, exact=False), sub=rng.getrandbits(32))
     # ---- constructor path / setters, valid and malformed
-    for _ in range(150 if quick else 1500):
+    for _ in range(400 if quick else 4000):
         ms = gen_mesh(rng, nmax=2, max_cells=8)
         yield dict(kind="meta", mesh=ms, sub=rng.getrandbits(32))
     # ---- __getattr__ and <<
-    for _ in range(30 if quick else 300):
+    for _ in range(80 if quick else 800):
         ms = gen_mesh(rng, nmax=3, max_cells=30)
         yield dict(kind="parts", mesh=ms, a=gen_field_spec(rng, ms), b=gen_field_spec(rng, ms), sub=rng.getrandbits(32))
 
